@@ -27,9 +27,33 @@ theorem C07_split :
     NoNamespaceDirs [[r1], [r2]] splitFs (splitOn DOT pk_m2) = true ∧
     NoModulePackageClash [[r1], [r2]] SUFFIXES splitFs (splitOn DOT pk_m2) = true ∧
     Regular [[r1], [r2]] SUFFIXES splitFs (splitOn DOT pk_m2) = true ∧
+    NoExtensionNextToSource [[r1], [r2]] NONEXT_SUFFIXES EXTENSION_SUFFIXES splitFs (splitOn DOT pk_m2) = true ∧
     NoSplitPackage [[r1], [r2]] SUFFIXES SOURCE_SUFFIXES LOADER_SUFFIXES splitFs (splitOn DOT pk_m2) = false ∧
     getModule [[r1], [r2]] SUFFIXES SOURCE_SUFFIXES splitFs [] pk_m2 = .found [r2, pk, m2 ++ PY] true ∧
     importlibFind LOADER_SUFFIXES splitFs [[r1], [r2]] pk_m2 = none := by
+  decide
+
+/-! second recorded defect: an extension module next to its source.  r1/m.py + r1/m.abi3.so, path [r1]:
+    supp tries `.py` before the extension suffixes and analyses m.py; FileFinder tries the extension
+    suffixes first and `import m` loads m.abi3.so. -/
+
+def mName : Str := [109]
+/-- ".abi3.so" -/
+def ABI3 : Str := [46, 97, 98, 105, 51, 46, 115, 111]
+
+def extFs : Fs := { files := [[r1, mName ++ PY], [r1, mName ++ ABI3]], dirs := [] }
+
+/-- every other domain hypothesis of C07_find holds (no split either), `NoExtensionNextToSource` is exactly what
+    fails, the model selects m.py and the specification m.abi3.so -/
+theorem C07_ext_next_to_source :
+    validComps (splitOn DOT mName) = true ∧
+    NoNamespaceDirs [[r1]] extFs (splitOn DOT mName) = true ∧
+    NoModulePackageClash [[r1]] SUFFIXES extFs (splitOn DOT mName) = true ∧
+    Regular [[r1]] SUFFIXES extFs (splitOn DOT mName) = true ∧
+    NoSplitPackage [[r1]] SUFFIXES SOURCE_SUFFIXES LOADER_SUFFIXES extFs (splitOn DOT mName) = true ∧
+    NoExtensionNextToSource [[r1]] NONEXT_SUFFIXES EXTENSION_SUFFIXES extFs (splitOn DOT mName) = false ∧
+    getModule [[r1]] SUFFIXES SOURCE_SUFFIXES extFs [] mName = .found [r1, mName ++ PY] true ∧
+    importlibFind LOADER_SUFFIXES extFs [[r1]] mName = some (.file [r1, mName ++ ABI3] none) := by
   decide
 
 end SuppModel.Witness
